@@ -204,6 +204,34 @@ var debugTrace = os.Getenv("VERIF_DEBUG") != ""
 
 const bubbleWatchdog = 120 * time.Second
 
+// mutexDeadlockHook turns an engine freeze into a violation when the goroutine
+// dump explains it: goroutines of the code under test are waiting for a mutex
+// (a lock-order deadlock, or a lock held across a wait that never ends). A
+// mutex wait is not a durable block for the virtual clock, so such a state
+// stops time instead of being reported by synctest; on the unchanged tree no
+// gbn scenario freezes. why says what the state means for the property.
+func mutexDeadlockHook(rec *stats.Recorder, kind string, c any, why string) func(string) {
+	return func(stacks string) {
+		var blocked []string
+		for _, g := range strings.Split(stacks, "\n\n") {
+			if !strings.Contains(g, "lightning-node-connect/gbn.") {
+				continue
+			}
+			if strings.Contains(g, "sync.(*Mutex).Lock") || strings.Contains(g, "sync.(*RWMutex).Lock") ||
+				strings.Contains(g, "sync.(*RWMutex).RLock") {
+				blocked = append(blocked, g)
+			}
+		}
+		if len(blocked) > 0 {
+			if len(blocked) > 4 {
+				blocked = blocked[:4]
+			}
+			rec.FatalViolation(fmt.Sprintf("%s: %d goroutine(s) of the connection waited for a mutex until the watchdog fired (virtual time could not advance):\n%s",
+				why, len(blocked), strings.Join(blocked, "\n\n")), kind, c)
+		}
+	}
+}
+
 func ms(d int) time.Duration { return time.Duration(d) * time.Millisecond }
 
 func errStr(err error) string {
